@@ -40,7 +40,7 @@ _BASE = {}
 def _cfg(params, n_tasks):
     return dict(backend=params["backend"], n_workers=params.get("n_workers", 2), pre_dispatch=params.get("pre_dispatch", 3),
                 batch_size=params.get("batch_size", 1), return_as=params.get("return_as", "list"),
-                calls=[dict(n_tasks=n_tasks)], durations=params.get("durations", ()))
+                calls=[dict(n_tasks=n_tasks)], durations=params.get("durations", ()), stmt=params.get("stmt", False))
 
 
 def prepare(params):
@@ -80,7 +80,7 @@ def check_outcome(o, n_tasks, return_as):
 def ob_sched(ni: int, pos0: int, pos1: int, pk: int) -> bool:
     """
     pre: 0 <= ni <= 5
-    pre: -1 <= pos0 <= 400 and -1 <= pos1 <= 400
+    pre: -1 <= pos0 <= 2000 and -1 <= pos1 <= 2000
     pre: 0 <= pk <= 8
     post: _
     """
@@ -243,6 +243,15 @@ def obligations(tier, seed):
                                "task_counts": counts, "n_workers": 2},
                     "timeout": 600 if tier == "quick" else 3400,
                     "bounds": "%r tasks, 2 workers, <=%d pre-emptions at any switch point, 2 completion picks in 0..2" % (counts, K)})
+    if tier == "thorough":
+        # statement-level switch points: joblib/parallel.py recompiled from its current source with a switch point
+        # before every statement of the methods touching shared state (one pre-emption anywhere)
+        for be, ra, pd in [("threading", "list", 3), ("loky", "generator", 2), ("stub_cb", "generator_unordered", 3)]:
+            obs.append({"name": "stmt/%s/%s/pre=%s" % (be, ra, pd), "fn": "ob_sched", "mode": "S",
+                        "params": {"backend": be, "return_as": ra, "pre_dispatch": pd, "batch_size": 1, "K": 1,
+                                   "task_counts": [1, 5], "n_workers": 2, "stmt": True}, "timeout": 3400,
+                        "bounds": "1 or 5 tasks, one pre-emption before ANY statement of Parallel/BatchCompletionCallBack "
+                                  "methods (about 600 switch points), 2 picks in 0..2"})
     for be in ("multiprocessing", "loky"):
         obs.append({"name": "auto/%s" % be, "fn": "ob_auto", "mode": "S",
                     "params": {"backend": be, "return_as": "list", "pre_dispatch": "2*n_jobs", "batch_size": "auto"},
